@@ -109,11 +109,12 @@ func vfOrig(v vfVariant) (Bundle, error) {
 		ts = NewCreationTimestamp(DtnTimeEpoch, 3)
 	}
 	pb := NewPrimaryBlock(flags, dst, src, ts, uint64(24*time.Hour/time.Millisecond))
-	pcrc := vfCrcs[v.PCrc]
-	if pcrc == CRCNo {
-		pcrc = CRC32
+	if pcrc := vfCrcs[v.PCrc]; pcrc == CRCNo {
+		// a primary block without a CRC (as a foreign node may send it): the setter would silently choose CRC-32
+		pb.CRCType, pb.CRC = CRCNo, nil
+	} else {
+		pb.SetCRCType(pcrc)
 	}
-	pb.SetCRCType(pcrc)
 	var cbs []CanonicalBlock
 	add := func(no uint64, fl BlockControlFlags, val ExtensionBlock) {
 		cb := NewCanonicalBlock(no, fl, val)
@@ -151,7 +152,11 @@ func vfSynth(orig Bundle, off, length int) Bundle {
 	p.FragmentOffset = uint64(off)
 	p.TotalDataLength = uint64(len(data))
 	p.CRC = nil
-	p.SetCRCType(orig.PrimaryBlock.CRCType)
+	if orig.PrimaryBlock.CRCType == CRCNo {
+		p.CRCType = CRCNo
+	} else {
+		p.SetCRCType(orig.PrimaryBlock.CRCType)
+	}
 	var cbs []CanonicalBlock
 	for _, cb := range orig.CanonicalBlocks {
 		if cb.TypeCode() == ExtBlockTypePayloadBlock {
@@ -231,7 +236,7 @@ func TestVerifC10Replay(t *testing.T) {
 			vhEmit(vhRec{"k": "infra", "v": err.Error()})
 			return
 		}
-		variant := vfVariant{Mix: idx % 5, PCrc: 1 + idx%2, CCrc: idx % 3, Ipn: idx%5 == 0, Payload: h.N}
+		variant := vfVariant{Mix: idx % 5, PCrc: (idx / 2) % 3, CCrc: idx % 3, Ipn: idx%5 == 0, Payload: h.N}
 		orig, err := vfOrig(variant)
 		if err != nil {
 			vhEmit(vhRec{"k": "infra", "v": "cannot build original: " + err.Error()})
@@ -483,7 +488,7 @@ func TestVerifFragRecord(t *testing.T) {
 	for _, p := range plens {
 		for mix := 0; mix < 5; mix++ {
 			for k := 0; k < 3; k++ { // crc / endpoint combination
-				v := vfVariant{Payload: p, Mix: mix, PCrc: 1 + (k+mix)%2, CCrc: (k + p) % 3, Ipn: (k+p+mix)%4 == 0}
+				v := vfVariant{Payload: p, Mix: mix, PCrc: (k + mix) % 3, CCrc: (k + p) % 3, Ipn: (k+p+mix)%4 == 0}
 				if p > maxSmall && k > 0 {
 					continue
 				}
